@@ -686,6 +686,9 @@ func (b *BMC) script(query string, K int) (string, map[string]string) {
 			w("(declare-const closed_%s_%d Bool)", c, k)
 			if b.tr.Objects[c].Cap > 0 {
 				w("(declare-const cnt_%s_%d (_ BitVec 8))", c, k)
+				for j := 0; j < b.tr.Objects[c].Cap; j++ {
+					w("(declare-const q_%s_%d_%d %s)", c, j, k, b.valSort())
+				}
 			}
 		}
 		for _, m := range b.mutexes {
@@ -798,6 +801,7 @@ func (b *BMC) script(query string, K int) (string, map[string]string) {
 		}
 		closedNext := map[string][]string{}
 		cntEff := map[string][]effect{}
+		qEff := map[string][]effect{} // key: channel "/" slot — FIFO contents of buffered channels
 		heldSet := map[string][]string{}
 		heldClr := map[string][]string{}
 		wgEff := map[string][]effect{}
@@ -909,13 +913,17 @@ func (b *BMC) script(query string, K int) (string, map[string]string) {
 					enabled = append(enabled, and(pre, cl))
 					pcEff[i] = append(pcEff[i], effect{fire, bv(pcW, e.to)})
 				case isChan && capOf(role.ch) > 0:
-					// buffered channel (payload not tracked): a counter
-					if ev.Val != nil || ev.Sym != nil {
-						panic("bmc: buffered channel " + role.ch + " carries a tracked payload (unsupported)")
-					}
+					// buffered channel: a counter plus a FIFO of cap slots for
+					// the payload (slot 0 is the head)
 					cnt := fmt.Sprintf("cnt_%s_%d", role.ch, k)
 					if role.send {
 						room := and(not(fmt.Sprintf("closed_%s_%d", role.ch, k)), fmt.Sprintf("(bvult %s %s)", cnt, bv(8, capOf(role.ch))))
+						if ev.Val != nil {
+							for j := 0; j < capOf(role.ch); j++ {
+								key := fmt.Sprintf("%s/%d", role.ch, j)
+								qEff[key] = append(qEff[key], effect{and(fire, room, fmt.Sprintf("(= %s %s)", cnt, bv(8, j))), val()})
+							}
+						}
 						valid = append(valid, and(base, noPartner, room, posts(fire, nil, postSrc{ev, bt, i})))
 						enabled = append(enabled, and(pre, or(room, fmt.Sprintf("closed_%s_%d", role.ch, k))))
 						pan := and(base, noPartner, fmt.Sprintf("closed_%s_%d", role.ch, k))
@@ -924,9 +932,17 @@ func (b *BMC) script(query string, K int) (string, map[string]string) {
 						cntEff[role.ch] = append(cntEff[role.ch], effect{and(fire, room), fmt.Sprintf("(bvadd %s #x01)", cnt)})
 					} else {
 						some := fmt.Sprintf("(not (= %s #x00))", cnt)
-						valid = append(valid, and(base, noPartner, some, posts(fire, nil, postSrc{ev, bt, i})))
+						got := "true"
+						if ev.Sym != nil {
+							got = fmt.Sprintf("(= %s q_%s_0_%d)", sym(), role.ch, k)
+						}
+						valid = append(valid, and(base, noPartner, some, got, posts(fire, nil, postSrc{ev, bt, i})))
 						enabled = append(enabled, and(pre, some))
 						cntEff[role.ch] = append(cntEff[role.ch], effect{fire, fmt.Sprintf("(bvsub %s #x01)", cnt)})
+						for j := 0; j+1 < capOf(role.ch); j++ {
+							key := fmt.Sprintf("%s/%d", role.ch, j)
+							qEff[key] = append(qEff[key], effect{fire, fmt.Sprintf("q_%s_%d_%d", role.ch, j+1, k)})
+						}
 					}
 					pcEff[i] = append(pcEff[i], effect{fire, bv(pcW, e.to)})
 				case isChan && role.send:
@@ -1089,6 +1105,10 @@ func (b *BMC) script(query string, K int) (string, map[string]string) {
 			w("(assert (= closed_%s_%d (or closed_%s_%d %s)))", c, k+1, c, k, and(not(stut), or(closedNext[c]...)))
 			if capOf(c) > 0 {
 				w("(assert (= cnt_%s_%d (ite %s cnt_%s_%d %s)))", c, k+1, stut, c, k, chain(fmt.Sprintf("cnt_%s_%d", c, k), cntEff[c]))
+				for j := 0; j < capOf(c); j++ {
+					cur := fmt.Sprintf("q_%s_%d_%d", c, j, k)
+					w("(assert (= q_%s_%d_%d (ite %s %s %s)))", c, j, k+1, stut, cur, chain(cur, qEff[fmt.Sprintf("%s/%d", c, j)]))
+				}
 			}
 		}
 		for _, m := range b.mutexes {
